@@ -86,10 +86,17 @@ def ord2(ctx, flavours):
     """assembly: Pre arm pushes the root before appending the edge targets, Post arm after; search_edges returns the kernel's result"""
     F = ctx.F
     out = []
+    dispatch.entry_pass(ctx, flavours, ('Order',))    # marks the blocks of sound shortcuts (decided by ENTRY-PASS)
     for b, sites in dispatch.entries(ctx, flavours, ('Order',)):
         pv, cfg = F.prov(b), F.cfg(b)
         rt_ty = F.types[b['locals'][0]]
-        ret = strip_payload(pv.of_local(0))
+        sc = set(b.get('shortcut_blocks', ()))
+        rts = []
+        for tm, dbi in pv.def_terms(0):
+            tm = strip_payload(tm)
+            if dbi not in sc and tm not in rts:
+                rts.append(tm)
+        ret = rts[0] if len(rts) == 1 else strip_payload(pv.of_local(0))
         rootf = dispatch._root_field(F, b)
         ROOT = ('f', P1_, rootf)
         returns_nodes = F.ty_has_adt(b['locals'][0], r'::node::Node$') and not F.ty_has_adt(b['locals'][0], r'::node::Edge$')
@@ -103,8 +110,12 @@ def ord2(ctx, flavours):
             elif returns_nodes:
                 if len(ords) != 1:
                     why.append('kernel call not under exactly one Ordering arm: %s' % labs)
-                pushes = [(sbi, st) for sbi, st in calls_in(b, lambda x: callee_name(x).endswith('Vec::push')) if strip_payload(pv.of_operand(st['args'][0])) == ret and cfg.dominates(bi, sbi)]
-                apps = [(sbi, st) for sbi, st in calls_in(b, lambda x: callee_name(x).endswith('Vec::append') or callee_name(x).split('::')[-1].rstrip('>') == 'extend') if strip_payload(pv.of_operand(st['args'][0])) == ret and cfg.dominates(bi, sbi)]
+                def same_arm(sbi):
+                    # an assembly step under a *second* `match self.order` belongs to this kernel call when the arms agree
+                    ol = [l.split('::')[-1] for l in dispatch.arm_context(F, b, sbi) if l.startswith('Ordering::')]
+                    return cfg.dominates(bi, sbi) or (cfg.path_exists(bi, sbi) and len(ords) == 1 and ol == ords)
+                pushes = [(sbi, st) for sbi, st in calls_in(b, lambda x: callee_name(x).endswith('Vec::push')) if strip_payload(pv.of_operand(st['args'][0])) == ret and same_arm(sbi)]
+                apps = [(sbi, st) for sbi, st in calls_in(b, lambda x: callee_name(x).endswith('Vec::append') or callee_name(x).split('::')[-1].rstrip('>') == 'extend') if strip_payload(pv.of_operand(st['args'][0])) == ret and same_arm(sbi)]
                 if len(pushes) != 1 or strip_payload(pv.of_operand(pushes[0][1]['args'][1])) != ROOT:
                     why.append('root is not pushed exactly once on this arm')
                 if len(apps) != 1:
